@@ -11,7 +11,7 @@ from collections.abc import Mapping
 from .ExcludedGcode import EXCLUDE_EXCEPT_FIRST, EXCLUDE_EXCEPT_LAST, EXCLUDE_MERGE
 from .Position import Position
 from .RetractionState import RetractionState
-from .GcodeParser import GcodeParser
+from .GcodeParser import GcodeParser, formatNumber
 
 IGNORE_GCODE_CMD = (None,)
 
@@ -831,7 +831,7 @@ class ExcludeRegionState(object):  # pylint: disable=too-many-instance-attribute
 
         returnCommands.append(
             # Set logical extruder position
-            "G92 E{e}".format(e=self.position.E_AXIS.nativeToLogical())
+            "G92 E{e}".format(e=formatNumber(self.position.E_AXIS.nativeToLogical()))
         )
 
         relativeMode = not self.position.X_AXIS.absoluteMode
@@ -847,8 +847,8 @@ class ExcludeRegionState(object):  # pylint: disable=too-many-instance-attribute
         newNativeZ = self.position.Z_AXIS.current
         oldNativeZ = self.lastPosition.Z_AXIS.current
         moveZcmd = "G0 F{f} Z{z}".format(
-            f=self.feedRate / self.feedRateUnitMultiplier,
-            z=newZ
+            f=formatNumber(self.feedRate / self.feedRateUnitMultiplier),
+            z=formatNumber(newZ)
         )
 
         if (newNativeZ > oldNativeZ):
@@ -860,9 +860,9 @@ class ExcludeRegionState(object):  # pylint: disable=too-many-instance-attribute
             # Move X/Y axes to new position
             # Use G0 ("fast" linear move) as this is a non-extruding move
             "G0 F{f} X{x} Y{y}".format(
-                f=self.feedRate / self.feedRateUnitMultiplier,
-                x=self.position.X_AXIS.nativeToLogical(),
-                y=self.position.Y_AXIS.nativeToLogical()
+                f=formatNumber(self.feedRate / self.feedRateUnitMultiplier),
+                x=formatNumber(self.position.X_AXIS.nativeToLogical()),
+                y=formatNumber(self.position.Y_AXIS.nativeToLogical())
             )
         )
 
